@@ -106,7 +106,7 @@ def scn_zip(ctx):
 ASSUMPTIONS = ["X: n symbolic in [0,22] with pre-resolved inputs (crosses the 20-element named-tuple boundary); 3 inputs with symbolic outcomes / order / duplicate; S: 3 inputs, two completer threads, optional output cancel; inputs beyond 22 are outside the claim"]
 BOUNDS_TEXT = {"quick": "X: 11 contracts (90 s each); S: P<=1", "thorough": "X: 400 s; S: P<=2"}
 MUST_REACH = {"*": ["positions-checked", "failure-checked"]}
-BUDGET = {"quick": 120.0, "thorough": 900.0}
+BUDGET = {"quick": 120.0, "thorough": 600.0}
 
 
 def plan(tier, seed):
